@@ -38,10 +38,13 @@ Hypothesis G_exc : t_exc th = None \/ p' = M956 \/ p' = SQ314 \/ p' = Q162.
 Hypothesis G_core : core_pc p' = true.
 Hypothesis G_mov : mov_of (set_pc th p') = mov_of th.
 Hypothesis G_f121 : p' <> F121.
+Hypothesis G_u198 : p' <> U198.
+Hypothesis G_cull : cull_ok (s_strong s) (s_weak s) (s_heap s) (set_pc th p').
 
 Lemma inv_goto : Inv (put_thr s t (set_pc th p')).
 Proof.
   pose proof (thr_refs s t Hinv Ht) as (Rv & Rs & Rl). fold th in Rv, Rs, Rl.
+  pose proof (inv_w_cobj s Hinv t Ht) as Rc. fold th in Rc.
   eapply inv_thr_step with (s := s) (t := t) (th' := set_pc th p') (new := None);
   lazymatch goal with
   | |- Inv _ => exact Hinv
@@ -54,6 +57,8 @@ Proof.
   | |- fresh_unlocked _ _ _ => intros o H1 H2; simpl in H2; lia
   | |- ref_ok _ (t_val _) => exact Rv
   | |- ref_ok _ (t_self _) => exact Rs
+  | |- ref_ok _ (t_cobj _) => exact Rc
+  | |- cull_ok _ _ _ _ => exact G_cull
   | |- forall o i e, In (RObj o i e) _ -> _ => exact Rl
   | |- sabs _ = true -> _ =>
       simpl; intros S; destruct (G_sabs S) as [A | A]; [now apply (inv_sabs s Hinv t Ht) | exact A]
@@ -72,10 +77,12 @@ Proof.
   | |- forall x, In (RExc x) _ -> _ => simpl; intros x H; exact (inv_noexc s Hinv t x Ht H)
   | |- core_pc _ = true => exact G_core
   | |- t_mex _ = false => simpl; apply (inv_scope s Hinv t Ht)
-  | |- mov_of _ = mov_of _ => exact G_mov
+  | |- mov_of _ = mov_of _ \/ _ => left; exact G_mov
   | |- forall i o e, hold_th _ i o e -> _ => intros i o e H; left; eapply hold_th_set_pc; eauto
   | |- forall i0 o0 e0, None = Some _ -> _ => discriminate
-  | |- t_pc _ = F121 -> _ => simpl; intros; contradiction
+  | |- forall o, t_pc _ = F121 -> _ => simpl; intros; contradiction
+  | |- forall k, deadw _ = Some k -> _ =>
+      intros k D; exfalso; unfold deadw in D; simpl in D; destruct p'; try discriminate; contradiction
   | |- _ => try reflexivity
   end.
 Qed.
@@ -100,10 +107,13 @@ Hypothesis G_exc : t_exc th = None \/ p' = M956 \/ p' = SQ314 \/ p' = Q162.
 Hypothesis G_core : core_pc p' = true.
 Hypothesis G_mov : mov_of (set_pc th p') = mov_of th.
 Hypothesis G_f121 : p' <> F121.
+Hypothesis G_u198 : p' <> U198.
+Hypothesis G_cull : cull_ok (s_strong s) (s_weak s) (s_heap s) (set_pc th p').
 
 Lemma inv_goto_lock : Inv (put_thr (with_lock s l') t (set_pc th p')).
 Proof.
   pose proof (thr_refs s t Hinv Ht) as (Rv & Rs & Rl). fold th in Rv, Rs, Rl.
+  pose proof (inv_w_cobj s Hinv t Ht) as Rc. fold th in Rc.
   eapply inv_thr_step with (s := s) (t := t) (th' := set_pc th p') (new := None);
   lazymatch goal with
   | |- Inv _ => exact Hinv
@@ -116,6 +126,8 @@ Proof.
   | |- fresh_unlocked _ _ _ => intros o H1 H2; simpl in H2; lia
   | |- ref_ok _ (t_val _) => exact Rv
   | |- ref_ok _ (t_self _) => exact Rs
+  | |- ref_ok _ (t_cobj _) => exact Rc
+  | |- cull_ok _ _ _ _ => exact G_cull
   | |- forall o i e, In (RObj o i e) _ -> _ => exact Rl
   | |- sabs _ = true -> _ =>
       simpl; intros S; destruct (G_sabs S) as [A | A]; [now apply (inv_sabs s Hinv t Ht) | exact A]
@@ -134,10 +146,12 @@ Proof.
   | |- forall x, In (RExc x) _ -> _ => simpl; intros x H; exact (inv_noexc s Hinv t x Ht H)
   | |- core_pc _ = true => exact G_core
   | |- t_mex _ = false => simpl; apply (inv_scope s Hinv t Ht)
-  | |- mov_of _ = mov_of _ => exact G_mov
+  | |- mov_of _ = mov_of _ \/ _ => left; exact G_mov
   | |- forall i o e, hold_th _ i o e -> _ => intros i o e H; left; eapply hold_th_set_pc; eauto
   | |- forall i0 o0 e0, None = Some _ -> _ => discriminate
-  | |- t_pc _ = F121 -> _ => simpl; intros; contradiction
+  | |- forall o, t_pc _ = F121 -> _ => simpl; intros; contradiction
+  | |- forall k, deadw _ = Some k -> _ =>
+      intros k D; exfalso; unfold deadw in D; simpl in D; destruct p'; try discriminate; contradiction
   | |- _ => try reflexivity
   end.
 Qed.
@@ -166,6 +180,9 @@ Ltac thr_obl s t Hinv Hlt Hpc :=
       unfold ref_ok; simpl; first [exact (proj1 (thr_refs s t Hinv Hlt)) | intros ? HH; discriminate HH | idtac]
   | |- ref_ok _ (t_self _) =>
       unfold ref_ok; simpl; first [exact (proj1 (proj2 (thr_refs s t Hinv Hlt))) | intros ? HH; discriminate HH | idtac]
+  | |- ref_ok _ (t_cobj _) =>
+      unfold ref_ok; simpl; first [exact (inv_w_cobj s Hinv t Hlt) | intros ? HH; discriminate HH | idtac]
+  | |- cull_ok _ _ _ _ => try (apply cull_ok_none; reflexivity)
   | |- forall o i e, In (RObj o i e) _ -> _ =>
       simpl; first [exact (proj2 (proj2 (thr_refs s t Hinv Hlt))) | intros ? ? ? [] | idtac]
   | |- sabs _ = true -> _ =>
@@ -197,11 +214,12 @@ Ltac thr_obl s t Hinv Hlt Hpc :=
       simpl; first [intros ? HH; exact (inv_noexc s Hinv t _ Hlt HH) | intros ? [] | idtac]
   | |- core_pc _ = true => reflexivity
   | |- t_mex _ = false => simpl; first [exact (proj2 (inv_scope s Hinv t Hlt)) | reflexivity]
-  | |- mov_of _ = mov_of _ => unfold mov_of; simpl; rewrite ?Hpc; try reflexivity
+  | |- mov_of _ = mov_of _ \/ _ => try (left; unfold mov_of; simpl; rewrite ?Hpc; reflexivity)
   | |- forall i o e, hold_th _ i o e -> _ =>
       try (intros ? ? ? HH; left; eapply hold_th_set_pc; [| exact HH]; rewrite ?Hpc; simpl; intros; first [discriminate | reflexivity])
   | |- forall i0 o0 e0, None = Some _ -> _ => discriminate
-  | |- t_pc _ = F121 -> _ => simpl; try (intros HH; discriminate HH)
+  | |- forall o, t_pc _ = F121 -> _ => simpl; try (intros ? HH; discriminate HH)
+  | |- forall k, deadw _ = Some k -> _ => try (simpl; intros ? HH; discriminate HH)
   | |- t_pc _ <> F121 => simpl; try discriminate
   | |- holds (t_pc _) = holds (t_pc _) => simpl; rewrite ?Hpc; try reflexivity
   | |- forall o, o < _ -> (wl _ o <-> wl _ o) => try (intros ? _; unfold wl; simpl; rewrite ?Hpc; simpl; tauto)
@@ -240,7 +258,7 @@ Hypothesis Hres :
       o < s_nextobj s /\
       (inflight th = Some (i, o, e) \/
        (inflight th = None /\ e = s_epoch s i /\ registered s i o /\
-        forall x, x < s_n s -> x <> t -> t_pc (s_thr s x) = F121 -> t_val (s_thr s x) = None -> t_id (s_thr s x) <> i))
+        forall x k, x < s_n s -> x <> t -> deadw (s_thr s x) = Some k -> k <> i))
   | RExc x => x = NotFound
   | _ => True
   end.
@@ -259,6 +277,8 @@ Proof.
   | |- fresh_unlocked _ _ _ => intros o H1 H2; rewrite Eo in H2; lia
   | |- ref_ok _ (t_val _) => simpl; intros ? HH; discriminate HH
   | |- ref_ok _ (t_self _) => simpl; intros ? HH; discriminate HH
+  | |- ref_ok _ (t_cobj _) => simpl; intros ? HH; discriminate HH
+  | |- cull_ok _ _ _ _ => apply cull_ok_none; reflexivity
   | |- forall o i e, In (RObj o i e) _ -> _ =>
       simpl; intros o i e HH; rewrite Eo; apply in_app_or in HH; destruct HH as [HH | [HH | []]];
       [eapply Rl; eauto | subst r; tauto]
@@ -274,11 +294,12 @@ Proof.
       [exact (inv_noexc s Hinv t x Ht HH) | subst r; exact Hres]
   | |- core_pc _ = true => reflexivity
   | |- t_mex _ = false => reflexivity
-  | |- mov_of _ = mov_of _ => fold th; rewrite Hmov; reflexivity
+  | |- mov_of _ = mov_of _ \/ _ => left; fold th; rewrite Hmov; reflexivity
   | |- forall i o e, hold_th _ i o e -> _ => idtac
   | |- forall i0 o0 e0, _ = Some _ -> _ /\ _ => idtac
-  | |- forall i0 o0 e0, _ = Some _ -> forall x, _ => idtac
-  | |- t_pc _ = F121 -> _ => simpl; intros HH; discriminate HH
+  | |- forall i0 o0 e0, _ = Some _ -> forall x k, _ => idtac
+  | |- forall o, t_pc _ = F121 -> _ => simpl; intros ? HH; discriminate HH
+  | |- forall k, deadw _ = Some k -> _ => simpl; intros ? HH; discriminate HH
   | |- _ => try assumption; try reflexivity
   end.
   - (* what the thread holds afterwards *)
@@ -307,6 +328,11 @@ Ltac goto_side s Hinv t Hlt Hpc :=
   | |- _ \/ _ => exc_side s Hinv t Hlt Hpc
   | |- mov_of _ = mov_of _ => unfold mov_of; simpl; rewrite ?Hpc; try reflexivity
   | |- _ <> F121 => discriminate
+  | |- _ <> U198 => discriminate
+  | |- cull_ok _ _ _ _ =>
+      first [apply cull_ok_none; reflexivity
+            | apply cull_ok_goto; [now apply inv_cull | rewrite ?Hpc; simpl; intuition congruence ..]
+            | idtac]
   | |- _ => rewrite ?Hpc; simpl; try reflexivity; try (intros; discriminate); try (intros; left; reflexivity);
             try (intros; assumption)
   end.
